@@ -25,7 +25,14 @@ type CiscoCase struct {
 }
 
 func GenCiscoCase(tp *tape.Tape, kind string) *CiscoCase {
+	return GenCiscoCaseK(tp, kind, nil)
+}
+
+func GenCiscoCaseK(tp *tape.Tape, kind string, adjust func(*gen.Knobs)) *CiscoCase {
 	k := gen.DefaultKnobs(kind, tp)
+	if adjust != nil {
+		adjust(&k)
+	}
 	cs := &CiscoCase{Kind: kind, Knobs: k}
 	cs.GB = gen.GenTarget(tp, k)
 	if k.Independent {
